@@ -1009,12 +1009,17 @@ impl ChainMonitor {
 
     // push compact proof transactions through, simulating a streamed block
     fn push_transactions(&self, block_hash: &BlockHash, txs: &[Transaction]) -> BlockDecodeState {
-        let mut state = self.get_state();
+        // The monitor state lock is released before the transactions are decoded: the decoder
+        // calls the commitment point provider, which takes the channel lock, while channel
+        // requests take the monitor state under their channel lock.
+        let mut decode_state = {
+            let mut state = self.get_state();
 
-        // we are synced if we see a compact proof
-        state.saw_block = true;
+            // we are synced if we see a compact proof
+            state.saw_block = true;
 
-        let mut decode_state = BlockDecodeState::new_with_block_hash(&*state, block_hash);
+            BlockDecodeState::new_with_block_hash(&*state, block_hash)
+        };
 
         let mut listener = PushListener {
             commitment_point_provider: &*self.commitment_point_provider,
